@@ -1,5 +1,6 @@
 // appended to src/builtin/bool.rs — C06 / C07: and, or short-circuit; errors propagate
 use crate::runtime::RuntimeLimits;
+use crate::util::lazy_bigint::LazyBigint;
 
 macro_rules! bool_sc_harness {
     ($name:ident, $add:ident, $short_on:expr) => {
@@ -42,3 +43,41 @@ macro_rules! bool_sc_harness {
 }
 bool_sc_harness!(c06_bool_and_native, add_bool_and, false);
 bool_sc_harness!(c06_bool_or_native, add_bool_or, true);
+
+/// `then(c, v)`: is not an error handler - an error condition or an error in the selected value propagates;
+/// `false.then(..)` does not evaluate its second argument
+native_harness_rec! {
+#[kani::unwind(4)]
+fn c06_bool_then_native() {
+    let mut root = RootCompilationScope::<P, P, P>::new();
+    add_bool_then(&mut root).unwrap();
+    let nc = last_native(&root);
+    let rt: Rt = no_limits();
+    let ns = crate::runtime_scope::verif_kani::bare_scope();
+    let (ea, eb): (bool, bool) = (kani::any(), kani::any());
+    let a: bool = kani::any();
+    let args = vec![
+        if ea { err_i(1, &rt) } else { val(XValue::Bool(a), &rt) },
+        if eb { err_i(2, &rt) } else { int(LazyBigint::Short(12), &rt) },
+    ];
+    let r = nc(&args, &ns, false, rt.clone());
+    let (n, _tags, _tails) = eval_log();
+    let got = outcome_tag(&r);
+    if ea {
+        assert!(got == Some(err_tag(1)) && n == 1, "an error condition propagates; the value is not evaluated");
+    } else if !a {
+        assert!(n == 1 && got == Some(5000), "false.then(..) is the empty optional and does not evaluate its argument");
+    } else if eb {
+        assert!(got == Some(err_tag(2)), "an error in the selected value propagates: `then` is not an error handler");
+    } else {
+        assert!(n == 2 && got == Some(5000), "true.then(v) is an optional");
+    }
+    kani::cover!(!ea && a && eb, "error in the selected value");
+    kani::cover!(!ea && !a, "false condition");
+    std::mem::forget(r);
+    std::mem::forget(args);
+    std::mem::forget(ns);
+    std::mem::forget(root);
+    std::mem::forget(rt);
+}
+}
